@@ -330,11 +330,42 @@ pub fn run_c20(a: &Args) {
             out })).collect();
         for h in handles { histories += 1; for (who, got, want) in h.join().unwrap() { check(&format!("threads, {who}"), got, want, &mut bad) } }
     }
+    // histories that contain REJECTED parses (rejected by the tokenizer, by the precondition check, by the expression
+    // builders; flat and deep; also nested): a later parse of an accepted text gives what a first parse gives
+    {
+        let rejected = ["2-*3", "*2", "((2-*3))", "1 2", "(1+2", "1+2)", "x y", "sin", "1+$", "((((1 2))))", "(((2-*3)+1)*x)", "max(1,", "3 4 *", "sin()", "((((((((((2-*3))))))))))"];
+        let accepted = ["sin(1+(2*(x-3)))/y", "((((((((((x+1))))))))))*2", "max(1, min(2,3))+x", "-(x+1)*(y-2)^2"];
+        let value = |t: &str| -> (Result<u64, String>, Result<u64, String>) {
+            let run = |deep: bool| -> Result<u64, String> {
+                if deep { let e = DeepEx::<f64>::parse(t).map_err(|e| e.to_string())?; let n = e.var_names().len(); e.eval(&(0..n).map(|q| 0.5 + q as f64).collect::<Vec<_>>()).map(|v| v.to_bits()).map_err(|e| e.to_string()) }
+                else { let e = FlatEx::<f64>::parse(t).map_err(|e| e.to_string())?; let n = e.var_names().len(); e.eval(&(0..n).map(|q| 0.5 + q as f64).collect::<Vec<_>>()).map(|v| v.to_bits()).map_err(|e| e.to_string()) } };
+            (run(false), run(true)) };
+        let first: Vec<_> = accepted.iter().map(|t| value(t)).collect();
+        for (t, v) in accepted.iter().zip(&first) { if v.0.is_err() || v.1.is_err() { bad.push(format!("harness: {t} is not accepted: {v:?}")) } }
+        for round in 0..40 {
+            for t in rejected { if FlatEx::<f64>::parse(t).is_ok() && DeepEx::<f64>::parse(t).is_ok() { bad.push(format!("harness: {t} is accepted")) } let _ = DeepEx::<f64>::parse(t); }
+            for (t, want) in accepted.iter().zip(&first) { let got = value(t); if got != *want { bad.push(format!("after {} rounds of rejected parses, {t:?} gives {got:?}, at first {want:?}", round + 1)); } }
+            histories += 1;
+            if !bad.is_empty() { break }
+        }
+        // concurrent deep parses of deeply nested texts: each thread's result is the sequential one
+        let nested: String = format!("{}x+1{}", "(".repeat(60), ")".repeat(60));
+        let want = value(&nested);
+        let barrier = Arc::new(Barrier::new(8));
+        let handles: Vec<_> = (0..8).map(|_| { let (b, t) = (barrier.clone(), nested.clone()); std::thread::spawn(move || { b.wait(); (0..6).map(|_| {
+            let e = DeepEx::<f64>::parse(&t).map_err(|e| e.to_string()); e.and_then(|e| e.eval(&[0.5]).map(|v| v.to_bits()).map_err(|e| e.to_string())) }).collect::<Vec<_>>() }) }).collect();
+        for h in handles { histories += 1; match h.join() { Ok(rs) => for r in rs { if r != want.1 { bad.push(format!("concurrent deep parse of a text nested 60 deep: {r:?}, sequentially {:?}", want.1)); } }, Err(_) => bad.push("a thread parsing a nested text panicked".into()) } }
+    }
     // evaluation never modifies the expression
-    let f = FlatEx::<f64>::parse("x*2+y").unwrap(); let before = format!("{f:?}"); let _ = f.eval(&[1.0, 2.0]); let _ = f.eval(&[3.0, 4.0]);
-    if format!("{f:?}") != before { bad.push("FlatEx changed by eval".into()) }
-    let d = DeepEx::<f64>::parse("x*2+y").unwrap(); let before = format!("{d:?}"); let _ = d.eval(&[1.0, 2.0]);
-    if format!("{d:?}") != before { bad.push("DeepEx changed by eval".into()) }
+    match (FlatEx::<f64>::parse("x*2+y"), DeepEx::<f64>::parse("x*2+y")) {
+        (Ok(f), Ok(d)) => {
+            let before = format!("{f:?}"); let _ = f.eval(&[1.0, 2.0]); let _ = f.eval(&[3.0, 4.0]);
+            if format!("{f:?}") != before { bad.push("FlatEx changed by eval".into()) }
+            let before = format!("{d:?}"); let _ = d.eval(&[1.0, 2.0]);
+            if format!("{d:?}") != before { bad.push("DeepEx changed by eval".into()) }
+        }
+        (f, d) => bad.push(format!("x*2+y is rejected at the end of the histories: flat {:?}, deep {:?}", f.err().map(|e| e.to_string()), d.err().map(|e| e.to_string()))),
+    }
     std::fs::create_dir_all(&a.out).unwrap();
     let mut f = std::io::BufWriter::new(std::fs::File::create(format!("{}/meta.json", a.out)).unwrap());
     writeln!(f, "{{\"shard_size\": 1, \"n_shards\": 0, \"tables\": [[]], \"cases\": [").unwrap();
